@@ -6,7 +6,12 @@ from . import prims as P
 from . import state as ST
 
 
+AM_OVERRIDE = [None]       # spec-level lemmas interpret the abstract memory (e.g. as a flat word array)
+
+
 def _am():
+    if AM_OVERRIDE[0] is not None:
+        return AM_OVERRIDE[0]
     from contracts import absmem
     return absmem
 
